@@ -53,6 +53,14 @@ CHECKS = {
    text="Model-based testing on boundary clocks with 2-3 ports: clean Announce streams from a synthetic parent and a rival whose contents change (whole-content and single-field changes), parent silence and take-over, receipt time-outs, run-time quality changes, BMCA and announce timers in generated order. Every emitted Announce (decoded by the reference codec) must (A) equal the data set getters read just before the call, (B) while a port is slave equal the parent's last delivered Announce with stepsRemoved+1, (C) when it names the instance as grandmaster carry the own priorities, stepsRemoved 0, the clock quality in force at the last completed BMCA (or a newer one) and own time properties; when the last BMCA left a master and no slave port the grandmaster named must be the instance itself.",
    note="Both leap flags from the parent: the data set keeps Leap59. UTC offset compared only when flagged valid.",
    technique="stateful model-based property testing with a reference of the expected Announce contents"),
+ "C13": dict(level="exploration", design="DESIGN.md §4 C13",
+   text="The Kalman and basic filters are driven directly with generated, physically consistent but adversarial measurement sequences (offsets 0..+-1e9 s, identical samples, equal event times, time running backwards, dt = 0, offset jumps, interleaved update() calls, intermittently failing clock, applied steps fed back), Kalman configurations drawn around the default; every programmed frequency must be finite and within +-max_freq_offset, every Kalman step at least the step threshold, no panic, estimates finite. A port-level part (C08-style histories with the Kalman filter) asserts at most one final in-bound frequency command in the call in which a port stops being slave and none afterwards.",
+   note="Samples whose event time minus offset would be negative are skipped.",
+   technique="property-based testing of the servo with invariant oracle on the recorded clock commands"),
+ "C15": dict(level="exploration", design="DESIGN.md §4 C15",
+   text="Model-based testing of a boundary clock (slave port + 1-3 master ports sharing the daemon's TlvForwarder wired as in main.rs, or a literal-contract provider): generated Announces from parent / other acceptable / unacceptable senders with TLVs of every type class and sizes at and around the remaining room, frames to 2048 bytes, path traces of 0..200 identities with and without the own identity, forwarder lag beyond 128 entries; every emitted Announce is compared with an exact reference forwarding queue per master port (order, at most once, unmodified, only parent + propagating, every TLV that fits, PATH_TRACE = parent's path + own identity, size <= 1024, decodable, always sent); loop Announces must have no effect at all. Plus an exhaustive size sweep (every even length 0..1100 x 11 path settings).",
+   note="One known finding (received PATH_TRACE TLV blocking the queue for paths >= 58 identities) is classified by its own signature and reported as KNOWN-FINDING. Under forwarder overflow only order / at-most-once / integrity are asserted.",
+   technique="model-based property testing against a reference queue + exhaustive size sweep"),
 }
 NA_REASON = "check not built yet in this round (design in DESIGN.md §4); will be claimed once its check exists"
 
